@@ -552,7 +552,7 @@ func main() {
 	if len(inconclusive) > 0 {
 		ev["coverage"].(map[string]any)["inconclusive"] = inconclusive
 	}
-	if repo == "/repo" {
+	if repo == "/repo" && onlySub == "" && scale == "" { // partial or scaled development runs never replace the evidence of a full run
 		os.MkdirAll(filepath.Join(root, "evidence"), 0o755)
 		data, _ := json.MarshalIndent(ev, "", " ")
 		os.WriteFile(filepath.Join(root, "evidence", id+".json"), append(data, '\n'), 0o644)
